@@ -101,12 +101,31 @@ def _single_value(fi, name):
 
 
 def _deref(fi, expr, limit=8):
-    """Follow ``name`` -> the expression it was (once) assigned, repeatedly."""
-    while isinstance(expr, ast.Name) and limit > 0:
-        v = _single_value(fi, expr.id)
-        if v is None:
-            break
-        expr, limit = v, limit - 1
+    """Follow ``name`` -> the expression it was (once) assigned, and ``pair[0]`` -> that element of a literal tuple /
+    list held by a once-assigned local, repeatedly."""
+    while limit > 0:
+        limit -= 1
+        if isinstance(expr, ast.Name):
+            v = _single_value(fi, expr.id)
+            if v is None:
+                break
+            expr = v
+            continue
+        if isinstance(expr, ast.Subscript) and isinstance(expr.ctx, ast.Load) and isinstance(expr.value, ast.Name):
+            idx = expr.slice
+            if isinstance(idx, ast.UnaryOp) and isinstance(idx.op, ast.USub) and isinstance(idx.operand, ast.Constant) and \
+                    isinstance(idx.operand.value, int):
+                i = -idx.operand.value
+            elif isinstance(idx, ast.Constant) and isinstance(idx.value, int) and not isinstance(idx.value, bool):
+                i = idx.value
+            else:
+                break
+            seq = _single_value(fi, expr.value.id)
+            # a tuple is immutable; a list only counts when nothing else touches the local
+            if isinstance(seq, ast.Tuple) and not any(isinstance(e, ast.Starred) for e in seq.elts) and -len(seq.elts) <= i < len(seq.elts):
+                expr = seq.elts[i]
+                continue
+        break
     return expr
 
 
@@ -482,6 +501,51 @@ def windows_only(mod, u):
 
 
 # ------------------------------------------------------------------------------------------------ the failsafe, by role
+def _flat_view(repo, mod):
+    """A copy of the analysed module in which the *public* plain functions that are only ever called (never passed
+    around as values, never re-bound, not named by any rule) are dissolved into their callers as well -- the loader
+    does this for private helpers only.  A refactoring that splits create_app / from_string into builder functions
+    then presents the same flat shape whatever the helpers are called.  Falls back to the module itself."""
+    import copy
+    from .. import normalize
+    try:
+        anchors = normalize.anchor_names()
+        used_as_value = set()
+        for n in ast.walk(mod.tree):
+            if isinstance(n, ast.Name) and isinstance(n.ctx, ast.Load):
+                par = mod.parents.get(n)
+                if not (isinstance(par, ast.Call) and par.func is n):
+                    used_as_value.add(n.id)
+        called = set(n.func.id for n in ast.walk(mod.tree) if isinstance(n, ast.Call) and isinstance(n.func, ast.Name))
+        cands = []
+        for st in mod.tree.body:
+            if isinstance(st, ast.FunctionDef) and not st.name.startswith('_') and st.name not in anchors and \
+                    st.name in called and st.name not in used_as_value and len(mod.assigns.get(st.name, [])) == 1:
+                probe = copy.copy(st)
+                probe.name = '_' + st.name
+                if normalize._eligible_def(probe) == 'func':
+                    cands.append(st.name)
+        if not cands:
+            return mod
+        view = copy.copy(mod)
+        view.tree = copy.deepcopy(mod.tree)
+        inl = normalize.Inliner(view.tree, anchors)
+        for st in view.tree.body:
+            if isinstance(st, ast.FunctionDef) and st.name in cands:
+                inl.mod_helpers[st.name] = normalize.Helper(st, 'func')
+        n = inl.run()
+        if not n:
+            return mod
+        view.tree = normalize.Canon().visit(view.tree)
+        ast.fix_missing_locations(view.tree)
+        view.functions, view.classes, view.imports, view.assigns, view.parents = {}, {}, {}, {}, {}
+        view._index()
+        view.inlined_calls = mod.inlined_calls + n
+        return view
+    except Exception:
+        return mod
+
+
 class _Route(object):
     def __init__(self, kind, node, pattern=None, endpoint=None, endpoint_text=None, render=None, app=None):
         self.kind, self.node, self.pattern, self.endpoint, self.endpoint_text, self.render, self.app = \
@@ -493,7 +557,8 @@ class _Failsafe(object):
 
     def __init__(self, repo):
         self.repo = repo
-        self.flaw = repo.mod(FLAW)
+        self.flaw_src = repo.mod(FLAW)                 # as loaded (what symtable sees)
+        self.flaw = _flat_view(repo, self.flaw_src)    # public call-only helpers dissolved, too
         self.ca = self.flaw.func('create_app')
         self._cache = {}
 
@@ -551,8 +616,17 @@ class _Failsafe(object):
         out = []
         for e in _seq_elements(ca, self.routes_node, 'create_app routes'):
             e0 = _deref(ca, e)
+            if isinstance(e0, ast.Subscript) and isinstance(e0.slice, (ast.Constant, ast.UnaryOp)):
+                # pages[0] / pages[-1] of a list that can be followed
+                idx = self.repo.try_fold(e0.slice, self.flaw, None)
+                seq = _seq_elements(ca, e0.value, 'create_app routes')
+                if not isinstance(idx, int) or not -len(seq) <= idx < len(seq):
+                    raise AnalysisError('create_app: route entry %s cannot be read' % short(e0))
+                e0 = _deref(ca, seq[idx])
             if isinstance(e0, ast.Tuple) and not any(isinstance(x, ast.Starred) for x in e0.elts):
                 parts = list(e0.elts)
+            elif isinstance(e0, ast.Call) and call_tail(e0) == 'SubApplication' and len(e0.args) == 2 and not e0.keywords:
+                parts = list(e0.args)
             elif isinstance(e0, ast.Call) and call_tail(e0) == 'Route' and not any(k.arg is None for k in e0.keywords):
                 parts = [argn(e0, 'pattern', 0), argn(e0, 'endpoint', 1), argn(e0, 'render', 2)]
                 extra = [k.arg for k in e0.keywords if k.arg not in ('pattern', 'endpoint', 'render')]
@@ -575,7 +649,14 @@ class _Failsafe(object):
                         epf = obj
                 render = _fold(self.repo, ca, parts[2])
                 if render is _UNFOLDED:
-                    render = norm(_deref(ca, parts[2]))
+                    rc = _deref(ca, parts[2])
+                    # render = factory('name'): the render function the factory would have been asked for anyway
+                    if isinstance(rc, ast.Call) and len(rc.args) == 1 and not rc.keywords and isinstance(rc.func, ast.Name) and \
+                            isinstance(_deref(ca, rc.func), ast.Call) and isinstance(_fold(self.repo, ca, rc.args[0]), str):
+                        render = _fold(self.repo, ca, rc.args[0])
+                        self._explicit_renders = getattr(self, '_explicit_renders', []) + [rc.func]
+                    else:
+                        render = norm(rc)
                 out.append(_Route('page', e, pattern, epf, epf.qualname if epf is not None else norm(ep), render))
             elif len(parts) == 2:
                 out.append(_Route('mount', e, pattern, app=_deref(ca, parts[1])))
@@ -658,6 +739,8 @@ class _Failsafe(object):
         if holder is None:
             return False
         if rfi is ca:
+            if any(_canon_name(ca, f) != holder for f in getattr(self, '_explicit_renders', [])):
+                return False
             return _canon_name(ca, rf) == holder
         made = _deref(ca, rf)
         g = _module_callee(self.repo, ca, made) if isinstance(made, ast.Call) else None
@@ -732,7 +815,7 @@ def _group(rep, fn, *args):
 
 
 def _names_resolve(rep, fs):
-    flaw, server = fs.flaw, rep.repo.mod('clastic.server')
+    flaw, server = fs.flaw_src, rep.repo.mod('clastic.server')
     rep.rule('R20.a', 'every global Name load in flaw.py (all scopes) and in the failsafe launcher functions of server.py resolves')
     check_unbound(rep, 'R20.a', [flaw])
     launcher = {'run_simple', 'run_simple.serve_error_app', 'restart_with_reloader', 'restart_with_reloader.consume_lines',
@@ -944,6 +1027,19 @@ def _aliases_of(fi, roots):
     return alias
 
 
+def _permutes_in_place(e):
+    """``xs[:] = sorted(xs, ...)`` / ``xs[:] = reversed(xs)``: the list keeps exactly its entries."""
+    t, st = e.target, e.node
+    if not (isinstance(st, ast.Assign) and len(st.targets) == 1 and isinstance(t.slice, ast.Slice) and
+            t.slice.lower is None and t.slice.upper is None and t.slice.step is None and isinstance(t.value, ast.Name)):
+        return False
+    v = st.value
+    if isinstance(v, ast.Call) and call_name(v) == 'list' and len(v.args) == 1:
+        v = v.args[0]
+    return isinstance(v, ast.Call) and call_name(v) in ('sorted', 'reversed') and v.args and \
+        isinstance(v.args[0], ast.Name) and v.args[0].id == t.value.id
+
+
 def _file_lists_kept(rep, fs):
     """R20.b (3): the monitored-file list that is shown is the list that was given: filtering builds new lists, nothing
     removes entries from the caller's list (sorting it in place keeps its content)."""
@@ -974,7 +1070,7 @@ def _file_lists_kept(rep, fs):
         ffi, alias = done[key]
         shrink = [e for e in effects.effects_in(ffi.node) if e.root in alias and
                   ((e.kind == 'mutcall' and e.method in ('remove', 'pop', 'clear', 'popitem', 'discard')) or e.kind == 'delete' or
-                   (e.kind == 'store' and isinstance(e.target, ast.Subscript)))]
+                   (e.kind == 'store' and isinstance(e.target, ast.Subscript) and not _permutes_in_place(e)))]
         rep.check('R20.b', fkey(ffi, 'input lists keep their entries'), not shrink,
                   'no entry is removed from the given file list (filters build new lists)' if not shrink else
                   '%s removes entries from the caller\'s monitored-file list in place (%s): the page (and the reloader that owns the list) '
